@@ -1,12 +1,12 @@
 PROP = dict(
-  units=['lr'],
+  units=['lr', 'cxxstatic:lr'],
   level='other',
-  obligations=['lr.update.order', 'lr.update.mutex', 'lr.update.exclusion', 'lr.toggle.order', 'lr.toggle.drains', 'lr.wait.spins_until_empty',
+  obligations=['static.lr.no_use_after_move', 'lr.update.order', 'lr.update.mutex', 'lr.update.exclusion', 'lr.toggle.order', 'lr.toggle.drains', 'lr.wait.spins_until_empty',
                'lr.read.bracket', 'lr.indicator.counts', 'lr.sync.seq_cst', 'lr.read.wait_free', 'lr.ctor.init'],
   explanation='Per-function contracts on the extracted text of left_right (read, update, toggle_version_and_wait, wait_for_readers, read_indicator, read_guard, ctors), '
               'SEQ and INT mode (environment = readers arriving/departing, one tracked reader following the read() contract with an arbitrarily stale version); '
               'the writer/reader exclusion half of the Left-Right argument is itself an obligation (lr.update.exclusion); linearizability of reads is the assumed composition lemma.',
-  assumptions=['composition lemma: Left-Right (Ramalhete & Correia 2015) linearizability argument from the checked ordering/exclusion obligations',
+  assumptions=['supporting static fact (clang-tidy bugprone-use-after-move on instantiations of the real templates, unit cxxstatic): heuristic check, covers the value-category semantics (std::move) that the C lowering drops', 'composition lemma: Left-Right (Ramalhete & Correia 2015) linearizability argument from the checked ordering/exclusion obligations',
                'std::mutex / std::lock_guard semantics (held flag); the second writer is excluded by the mutex',
                'INT mode is sequentially consistent; weak-memory part only as sync obligations (orders at least as strong as the numbered comments)',
                'fewer than 2^62 readers inside read() at any time'],
